@@ -444,6 +444,17 @@ func vfGenRecCfg(t *rapid.T, o vfRecGenOpt) vfRecCfg {
 	if c.Max > 5 {
 		c.Max = 5
 	}
+	if rapid.IntRange(0, 7).Draw(t, "large") == 0 {
+		// long previews and limits at a low frame rate: ring sizes and frame counts well beyond the usual ones
+		c.FPS = rapid.IntRange(1, 2).Draw(t, "fpsL")
+		c.Preview = rapid.IntRange(0, 15).Draw(t, "previewL")
+		c.Trigger = rapid.IntRange(0, 6).Draw(t, "triggerL")
+		if c.Preview*c.FPS+c.Trigger < 1 {
+			c.Trigger = 1
+		}
+		c.Min = rapid.IntRange(0, 20).Draw(t, "minL")
+		c.Max = c.Min + rapid.IntRange(0, 20).Draw(t, "maxL")
+	}
 	c.Edge = rapid.IntRange(0, 1).Draw(t, "edge")
 	c.W = rapid.IntRange(2+2*c.Edge, 6).Draw(t, "w")
 	c.H = rapid.IntRange(2+2*c.Edge, 5).Draw(t, "h")
